@@ -1,4 +1,4 @@
-"""C02 - protobuf write -> read is lossless (spec: Codec.tla, trace spec: Trace_Codec.tla)."""
+"""C02 - protobuf write -> read is lossless (spec: Codec.tla - PbExpressible / PbCarried / ReadBackPb, trace spec: Trace_Codec.tla)."""
 from crv import codec
 
 PROPERTY = "C02"
@@ -8,11 +8,13 @@ EXHAUSTIVE = True
 RULE = ("TLC enumerates scenario descriptors PER COMPONENT exhaustively (obstacle, planning, lanelet, sign, light, "
         "intersection, header, numbers) with all other components at a minimal default world, plus a seeded mixed draw "
         "of all components at once; only descriptors Codec!PbExpressible accepts are executed.  Each descriptor is "
-        "built through public constructors (gamma), written with CommonRoadFileWriter(decimal_precision=d), read back "
-        "with CommonRoadFileReader, both object graphs are projected to leaves through public accessors (alpha) and "
+        "built through public constructors (gamma), written with CommonRoadFileWriter(file_format=PROTOBUF), read back "
+        "with CommonRoadFileReader (file_format=PROTOBUF), both object graphs are projected to leaves through public accessors (alpha) and "
         "Trace_Codec compares the read-back leaves with Codec!Expected(\"pb\", desc): discrete leaves identical, real "
-        "leaves in class exact / within_tol (|x'-x| < 10^-d, Fraction arithmetic).  distinct_nontrivial = distinct "
-        "(descriptor, d).")
+        "leaves in class exact (bit identical, struct.pack).  The pools contain the default-argument objects (obstacles "
+        "of every role, signs, lights, incoming elements built with only their required arguments: gamma passes an "
+        "optional argument only when the descriptor sets it) and the fields only protobuf carries (static-obstacle signal "
+        "states, first occurrences, prediction shape).  distinct_nontrivial = distinct (descriptor, d).")
 ASSUMPTIONS = ["initial states are InitialState instances populating a subset of its six attributes (constructor type)",
                "trajectory states have exact time steps t0, t0+1, ... (Trajectory documents contiguity)",
                "a traffic-sign element uses the enum class of the scenario's country (the format stores only the value)",
